@@ -92,13 +92,13 @@ var properties = map[string]*propDef{
 		NotDecided:  "sources outside the list (unsafe, cgo, finalisers - none present); the operating system.",
 	},
 	"C13": {
-		Rules:       []string{"TAB-KEYSIG", "SCALEWIRE", "TAB-REGEX", "OPT", "WIRE"},
+		Rules:       []string{"TAB-KEYSIG", "SCALEWIRE", "TAB-REGEX", "OPT", "ERRFLOW", "WIRE"},
 		Technique:   techTab + ": 28 signature rows against signatures derived from the step patterns",
 		Explanation: "every row of the signature table equals the signature derived by walking the major / natural-minor step pattern from the tonic (not copied from a table); the 15 major and 13 minor keys exist; order of flats B E A D G C F by stacking fifths; flats take the first n, sharps the last n; the tonic-to-ring-index table; altered letters of every row equal the derived scale's; NewScale applies a row as stated and refuses keys without a row.",
 		NotDecided:  "NewScale's output as a computed value (it is the composition of checked tables with structurally checked wiring).",
 	},
 	"C14": {
-		Rules:       []string{"TAB-CIRCLE", "CIRCLEWIRE", "TAB-KEYSIG"},
+		Rules:       []string{"TAB-CIRCLE", "CIRCLEWIRE", "TAB-KEYSIG", "WIRE"},
 		Technique:   techTab + ": ring laws and exhaustive chain check on the extracted model; wiring of find/index/Ring.At on SSA",
 		Explanation: "both rings have 12 slots, each slot's spellings are enharmonic, each step is a fifth up, the rings are aligned as relatives, the slots partition the supported keys (so results list every spelling); the four (other-ring, delta) pairs are (no,+1) (no,-1) (yes,0) (yes,-3/+3); on the extracted model every conversion of every key satisfies its definition and all 152,880 chains of length <= 6 satisfy d.s=id, r.r=p.p=id, d^12=id; the code conforms to the model: index in the key's own ring, slot index+delta in the requested ring, modulo wrap both ways, member threaded through the steps in order; CLI letters p r d s select the right conversions.",
 		NotDecided:  "nothing of substance beyond `code = model` being a structural, not a semantic, equivalence.",
@@ -116,7 +116,7 @@ var properties = map[string]*propDef{
 		NotDecided:  "that GenerateAttributes computes the list (its tables and loop bounds are checked and the file is compared with an independent generator, the function itself is not evaluated).",
 	},
 	"C17": {
-		Rules:       []string{"TAB-DIATONIC", "TAB-LEXNAMES", "TAB-CHORDS", "TAB-KEYSIG", "SCALEWIRE", "TAB-NOTE", "TAB-DEGREE", "APPLY", "WIRE"},
+		Rules:       []string{"TAB-DIATONIC", "TAB-LEXNAMES", "TAB-CHORDS", "TAB-KEYSIG", "SCALEWIRE", "TAB-NOTE", "TAB-DEGREE", "APPLY", "EXTENDS", "WIRE"},
 		Technique:   techTab + ": diatonic name tables against stacked thirds through chord.yml; printed names against the lexer's rune tables",
 		Explanation: "for each mode and degree the chord named in the table, resolved through chord.yml, has exactly the pitch set of thirds stacked on that degree of the derived scale (right qualities, only scale tones, for all 28 keys because the specification is transposition invariant and TAB-KEYSIG ties each key to its derived scale); names are paired with scale notes by index; every printed chord lexes back as SYLLABLE [accidental] SYMBOL, with `_` exactly where a digit would otherwise lex as NUMBER.",
 		NotDecided:  "the end-to-end pipe `text conv | write` as an execution.",
@@ -135,8 +135,9 @@ var wireScope = map[string][]string{
 	"C10": {"cmd.writeCmdConv.RunE", "note.ParseDegree", "note.NewDegree", "cmd.newWriteCmdArgsFromInputInstances", "astconv.ASTConverter.Convert", "astconv.ValuesConverterImpl.", "astconv.MetaConverterImpl."},
 	"C11": {"input/ast.NewToken", "astconv.SyllableChordConverter.newScaleNote", "astconv.DegreeChordConverter.", "astconv.SyllableChordConverter.Convert", "astconv.ValuesConverterImpl.", "cmd.infoCmdChordDescribe.RunE"},
 	"C13": {"op.Scale.", "op.ScaleNote.Semitone", "op.Key.Semitone", "desc.Key.Describe", "cmd.getScale", "cmd.infoKeyCmdDescribe"},
-	"C15": {"note.ParseDegree", "note.NewDegree", "note.Note.Semitone", "chord.Attribute.Semitone", "desc.Attribute.Describe", "cmd.infoCmdAttrDescribe", "cmd.getRootNote", "chord.Map.GetAttribute", "chord.GenerateAttributes"},
-	"C16": {"chord.", "desc.Chord.Describe", "desc.Attribute.Describe", "cmd.infoCmdChordDescribe", "cmd.newChordMap"},
+	"C14": {"cmd.infoKeyCmdConv", "cmd.getScale"},
+	"C15": {"note.Note.AddDegree", "note.ParseDegree", "note.NewDegree", "note.Note.Semitone", "chord.Attribute.Semitone", "desc.Attribute.Describe", "cmd.infoCmdAttrDescribe", "cmd.getRootNote", "chord.Map.GetAttribute", "chord.GenerateAttributes"},
+	"C16": {"cmd.genCmdAttr", "chord.", "desc.Chord.Describe", "desc.Attribute.Describe", "cmd.infoCmdChordDescribe", "cmd.newChordMap"},
 	"C17": {"desc.Key.Describe", "op.DiatonicChorderImpl.", "cmd.infoKeyCmdDescribe", "op.Scale.", "op.ScaleNote.Semitone", "cmd.getScale", "chord.Map."},
 }
 
@@ -146,6 +147,8 @@ var otherScope = map[string]map[string][]string{
 	"C08": {"IOLAYER": {"*|os.Stdout", "*|fmt.Print", "*|cobra.Out"}},
 	// the search over the interval table ranges over a map: it is deterministic only while exactly one row qualifies
 	"C12": {"TAB-DEGREE": {"note.Degree.simpleSemitone|adjust", "note.Degree|adjust"}},
+	// an unknown --key must be refused, not answered with another key's scale
+	"C13": {"ERRFLOW": {"cmd.getScale", "op.NewScale", "cmd.getKey"}},
 }
 
 func init() {
